@@ -103,6 +103,7 @@ def initial_files(init, subjects):
     raise ValueError(init)
 
 
+PRISTINE_IMAGE = sched.capture_image()  # module-level data of the library before any use: what every new process starts from
 LAST_ERROR: list = []
 GRAVEYARD: list = []  # objects of killed processes: never finalized (a kill runs no finalizer, no __del__, no atexit)
 
@@ -113,6 +114,7 @@ def session(subjects, crash_at, with_exit, out=OUT):
     from panoptica import Panoptica_Aggregator
 
     sched.reset_locks()
+    sched.restore_image(PRISTINE_IMAGE)
     agg.drop_exit_handlers()
     vfs.fs.crashed = False
     vfs.fs.nops = 0
@@ -319,6 +321,7 @@ def _replay_history(hist):
 
     vfs.reset(dirs=["/vfs/d", "/vfs/e"])
     sched.reset_locks()
+    sched.restore_image(PRISTINE_IMAGE)
     agg.drop_exit_handlers()
     live, submitted, handlers = {}, {f: [] for f in FILES.values()}, {}
     for op in hist:
